@@ -104,6 +104,25 @@ class Prop(PropBase):
         out["start"] = None if y.start_time is None else ("acquired" if z.start_time is None else
                                                           X.rat(X.time_offset_s(y.start_time, z.start_time)))
         out["supplied_same"] = bool(len(y2) == len(y) and np.array_equal(np.asarray(y2.data), np.asarray(y.data)))
+        # two dedispersions of one Dask-backed signal that differ only in the reference frequency (and two that differ only
+        # in DM), evaluated in ONE graph, must each equal the result computed alone
+        if case["seed"] % 3 == 0:
+            try:
+                import dask
+                import dask.array as da
+                zd = type(z).like(z, da.from_array(np.asarray(z.data), chunks=(-1,) + (1,) * (z.ndim - 1)))
+                r2 = z.max_freq if (ref is None or bool(r != z.max_freq)) else z.center_freq
+                ls = [pb.coherent_dedispersion(zd, DM, ref_freq=r), pb.coherent_dedispersion(zd, DM, ref_freq=r2),
+                      pb.coherent_dedispersion(zd, pb.DM(dmv * 0.5), ref_freq=r)]
+                alone = [l.data.compute(scheduler="synchronous") for l in ls]
+                joint = dask.compute(*[l.data for l in ls], scheduler="synchronous")
+                out["joint_same"] = bool(all(a.shape == b.shape and np.array_equal(a, b) for a, b in zip(alone, joint)))
+                out["joint_stack"] = True
+                if alone[0].shape == alone[2].shape and alone[0].size:
+                    both = da.stack([ls[0].data, ls[2].data]).compute(scheduler="synchronous")
+                    out["joint_stack"] = bool(np.array_equal(both[0], alone[0]) and np.array_equal(both[1], alone[2]))
+            except Exception as e:  # noqa
+                out["joint_err"] = err_name(e)
         out["lazy"] = bool((type(y.data).__module__.startswith("dask")) == case["dask"])
         yd = np.asarray(y.data)
         xd = np.asarray(z.data)
@@ -113,17 +132,19 @@ class Prop(PropBase):
         Hs, ratios = [], []
         for c, f_c in enumerate(z.channel_freqs):
             fc = X.q_value(f_c, u.Hz)
-            ph = []
+            ph, tolk = [], []
             for k in range(N):
                 b = k if k < (N + 1) // 2 else k - N
                 f = fc + F(b) * rateF / N
                 p = K_HZ * dmF * f * (1 / refF - 1 / f) ** 2
                 ph.append(float(p - math.floor(p)))
+                # float64 evaluation of K*DM*f*(1/ref - 1/f)^2: a few ulp of the phase, plus the cancellation in
+                # (1/ref - 1/f), whose relative error is 2^-52 * f/|f - ref| and enters squared (x2)
+                canc = float(f / abs(f - refF)) if f != refF else 0.0
+                tolk.append(2 * math.pi * (abs(float(p)) + 1.0) * (2.0 ** -42 + 2.0 ** -50 * canc) + 2.0 ** -21)
             want = np.exp(-2j * np.pi * np.array(ph))
             Hs.append(want)
-            phimax = abs(float(K_HZ * dmF * fc * (1 / refF - 1 / fc) ** 2))
-            tol = 2 * math.pi * (phimax + 1.0) * 2.0 ** -48 * 64 + 2.0 ** -21
-            ratios.append(float(np.max(np.abs(chm[:, c] - want))) / tol)
+            ratios.append(float(np.max(np.abs(chm[:, c] - want) / np.array(tolk))))
         out["chirp_ratio"] = max(ratios)
         out["chirp_tol_turns"] = [float((abs(float(K_HZ * dmF * X.q_value(f_c, u.Hz) * (1 / refF - 1 / X.q_value(f_c, u.Hz)) ** 2)) + 1.0)
                                         * 2.0 ** -48 * 64 + 2.0 ** -20 / (2 * math.pi)) for f_c in z.channel_freqs]
@@ -219,6 +240,11 @@ class Prop(PropBase):
             lim = 1e-5 * max(1.0, math.log2(N + 1))
             if not (0 <= code.get("data_err", -1.0) <= lim):
                 return f"dedispersed data differ from ifft(fft(x)*H)[start:stop] by {code.get('data_err')} (limit {lim:.3g})"
+        if code.get("joint_same") is False or code.get("joint_stack") is False:
+            return ("dedispersions of one Dask-backed signal that differ only in ref_freq or only in DM, evaluated in one graph, "
+                    "differ from the results computed alone")
+        if "joint_err" in code:
+            return f"dedispersing the Dask-backed copy raised {code['joint_err']}"
         if not code["supplied_same"]:
             return "a supplied chirp gives a different result from the internal one"
         # band-limited fractional delays have 1/n sidelobes that the edge crops cut off, so exact restoration is
